@@ -1,10 +1,12 @@
 package core
 
 import (
+	"fmt"
 	"go/constant"
 	"go/token"
 	"go/types"
 	"sort"
+	"strings"
 
 	"golang.org/x/tools/go/ssa"
 )
@@ -191,6 +193,12 @@ func DerivesFrom(v ssa.Value, src func(ssa.Value) bool) bool {
 					}
 				}
 			}
+		case *ssa.Alloc:
+			for _, st := range storesTo(x) {
+				if walk(st) {
+					return true
+				}
+			}
 		case *ssa.Next:
 			return walk(x.Iter)
 		case *ssa.Range:
@@ -269,36 +277,256 @@ func normCond(v ssa.Value) (ssa.Value, bool) {
 	}
 }
 
+// knownConst resolves a value to a comparable constant identity: a Const, or an
+// interface made from a Const ("T:value"). ok=false when the value is not a known constant.
+func knownConst(v ssa.Value) (string, bool) {
+	switch x := v.(type) {
+	case *ssa.Const:
+		if x.Value == nil {
+			return "nil", true
+		}
+		return x.Type().String() + ":" + x.Value.ExactString(), true
+	case *ssa.MakeInterface:
+		if k, ok := x.X.(*ssa.Const); ok && k.Value != nil {
+			return k.Type().String() + ":" + k.Value.ExactString(), true
+		}
+	case *ssa.ChangeType:
+		return knownConst(x.X)
+	}
+	return "", false
+}
+
+// constCompare decomposes an If-condition atom of the form V ==/!= const.
+func constCompare(atom ssa.Value) (v ssa.Value, c string, isEq bool, ok bool) {
+	bo, isB := atom.(*ssa.BinOp)
+	if !isB || (bo.Op != token.EQL && bo.Op != token.NEQ) {
+		return nil, "", false, false
+	}
+	if k, isK := knownConst(bo.Y); isK {
+		if _, both := knownConst(bo.X); both {
+			return nil, "", false, false
+		}
+		return bo.X, k, bo.Op == token.EQL, true
+	}
+	if k, isK := knownConst(bo.X); isK {
+		return bo.Y, k, bo.Op == token.EQL, true
+	}
+	return nil, "", false, false
+}
+
+type reachCtx struct {
+	tracked     map[*ssa.Phi]bool   // phis compared with constants somewhere
+	interesting map[ssa.Value]bool  // non-constant values flowing into tracked phis
+}
+
+func newReachCtx(fn *ssa.Function) *reachCtx {
+	ctx := &reachCtx{tracked: map[*ssa.Phi]bool{}, interesting: map[ssa.Value]bool{}}
+	for _, a := range CondAtoms(fn) {
+		if v, _, _, ok := constCompare(a); ok {
+			if phi, isPhi := v.(*ssa.Phi); isPhi {
+				ctx.tracked[phi] = true
+			}
+		}
+	}
+	// close under phi-of-phi
+	changed := true
+	for changed {
+		changed = false
+		for phi := range ctx.tracked {
+			for _, e := range phi.Edges {
+				if p2, ok := e.(*ssa.Phi); ok && !ctx.tracked[p2] {
+					ctx.tracked[p2] = true
+					changed = true
+				}
+			}
+		}
+	}
+	for phi := range ctx.tracked {
+		for _, e := range phi.Edges {
+			if _, isK := knownConst(e); isK {
+				continue
+			}
+			if _, isPhi := e.(*ssa.Phi); isPhi {
+				continue
+			}
+			ctx.interesting[e] = true
+		}
+	}
+	return ctx
+}
+
+type pathEnv struct {
+	phi   map[*ssa.Phi]ssa.Value // resolution of tracked phis on this path
+	facts map[string]bool        // "<value>|<const>" -> V == const
+}
+
+func (e pathEnv) clone() pathEnv {
+	n := pathEnv{phi: map[*ssa.Phi]ssa.Value{}, facts: map[string]bool{}}
+	for k, v := range e.phi {
+		n.phi[k] = v
+	}
+	for k, v := range e.facts {
+		n.facts[k] = v
+	}
+	return n
+}
+
+func (e pathEnv) key() string {
+	var parts []string
+	for k, v := range e.phi {
+		parts = append(parts, k.Name()+"="+v.Name()+"@"+fmt.Sprintf("%p", v))
+	}
+	for k, v := range e.facts {
+		parts = append(parts, fmt.Sprintf("%s:%v", k, v))
+	}
+	sort.Strings(parts)
+	return strings.Join(parts, ";")
+}
+
+func (e pathEnv) resolve(v ssa.Value) ssa.Value {
+	for i := 0; i < 8; i++ {
+		phi, ok := v.(*ssa.Phi)
+		if !ok {
+			return v
+		}
+		r, has := e.phi[phi]
+		if !has {
+			return v
+		}
+		v = r
+	}
+	return v
+}
+
+func factKey(v ssa.Value, c string) string { return fmt.Sprintf("%p|%s", v, c) }
+
+// decide evaluates an atom V ==/!= c on this path: known phi constants and recorded facts.
+func (e pathEnv) decide(ctx *reachCtx, atom ssa.Value) (val bool, ok bool) {
+	v, c, isEq, isCC := constCompare(atom)
+	if !isCC {
+		return false, false
+	}
+	rv := e.resolve(v)
+	if k, isK := knownConst(rv); isK {
+		return (k == c) == isEq, true
+	}
+	if f, has := e.facts[factKey(rv, c)]; has {
+		return f == isEq, true
+	}
+	// V == c' known true with c' != c  =>  V != c
+	prefix := fmt.Sprintf("%p|", rv)
+	for k, f := range e.facts {
+		if f && strings.HasPrefix(k, prefix) && k != factKey(rv, c) {
+			return !isEq, true
+		}
+	}
+	return false, false
+}
+
+func (e pathEnv) record(ctx *reachCtx, atom ssa.Value, truth bool) {
+	v, c, isEq, isCC := constCompare(atom)
+	if !isCC {
+		return
+	}
+	rv := e.resolve(v)
+	if ctx.interesting[rv] {
+		e.facts[factKey(rv, c)] = truth == isEq
+	}
+}
+
 // ForwardReach computes the blocks reachable from `from` following forward
 // (non-back) edges that do not contradict the assignment of atoms. Atoms not
-// in assign are free. If stop != nil, blocks for which stop returns true are
-// not expanded (but are marked reached).
+// in assign are free. The walk is path-sensitive for one family of facts:
+// comparisons of a value with constants, threaded through phis
+// (x := A; if c {x = B}; if x == A {...} and v2 := phi(v1, K); v1 == K1 earlier
+// decides v2 == K1 later). If stop != nil, blocks for which stop returns true
+// are not expanded.
 func ForwardReach(from *ssa.BasicBlock, assign map[ssa.Value]bool, stop func(*ssa.BasicBlock) bool) map[*ssa.BasicBlock]bool {
+	fn := from.Parent()
+	ctx := newReachCtx(fn)
+	type state struct {
+		b   *ssa.BasicBlock
+		env pathEnv
+	}
 	seen := map[*ssa.BasicBlock]bool{from: true}
-	work := []*ssa.BasicBlock{from}
-	for len(work) > 0 {
-		b := work[len(work)-1]
+	seenState := map[string]bool{}
+	start := state{from, pathEnv{phi: map[*ssa.Phi]ssa.Value{}, facts: map[string]bool{}}}
+	work := []state{start}
+	budget := 200000
+	for len(work) > 0 && budget > 0 {
+		budget--
+		st := work[len(work)-1]
 		work = work[:len(work)-1]
+		b := st.b
 		if stop != nil && stop(b) && b != from {
 			continue
 		}
-		for _, s := range b.Succs {
+		var atom ssa.Value
+		var neg bool
+		if len(b.Instrs) > 0 {
+			if ifi, ok := b.Instrs[len(b.Instrs)-1].(*ssa.If); ok && len(b.Succs) == 2 && b.Succs[0] != b.Succs[1] {
+				atom, neg = normCond(ifi.Cond)
+			}
+		}
+		for si, s := range b.Succs {
 			if backEdge(b, s) {
 				continue
 			}
-			if c, pol, ok := EdgeCond(b, s); ok {
-				atom, neg := normCond(c)
-				if val, has := assign[atom]; has {
-					want := pol != neg // value the atom must have for this edge
-					if val != want {
-						continue
+			env := st.env
+			if atom != nil {
+				// truth the atom must have to take this successor
+				want := (si == 0) != neg
+				if v, ok := assign[atom]; ok && v != want {
+					continue
+				}
+				if d, ok := st.env.decide(ctx, atom); ok && d != want {
+					continue
+				}
+				env = st.env.clone()
+				env.record(ctx, atom, want)
+			}
+			// entering s from b: resolve its tracked phis
+			cloned := atom != nil
+			for _, in := range s.Instrs {
+				phi, ok := in.(*ssa.Phi)
+				if !ok {
+					break
+				}
+				if !ctx.tracked[phi] {
+					continue
+				}
+				for i, p := range s.Preds {
+					if p == b {
+						if !cloned {
+							env = st.env.clone()
+							cloned = true
+						}
+						env.phi[phi] = env.resolve(phi.Edges[i])
 					}
 				}
 			}
-			if !seen[s] {
-				seen[s] = true
-				work = append(work, s)
+			k := fmt.Sprintf("%d|%s", s.Index, env.key())
+			if seenState[k] {
+				continue
 			}
+			seenState[k] = true
+			seen[s] = true
+			work = append(work, state{s, env})
+		}
+	}
+	if budget == 0 {
+		// give up precision, never soundness: everything forward-reachable is reachable
+		var all func(*ssa.BasicBlock)
+		all = func(b *ssa.BasicBlock) {
+			for _, s := range b.Succs {
+				if !backEdge(b, s) && !seen[s] {
+					seen[s] = true
+					all(s)
+				}
+			}
+		}
+		for b := range seen {
+			all(b)
 		}
 	}
 	return seen
@@ -557,4 +785,50 @@ func StringSetAt(fn *ssa.Function, b *ssa.BasicBlock, same func(ssa.Value) bool)
 	}
 	sort.Strings(set)
 	return set, true
+}
+
+// CondAtomsReaching lists the If-condition atoms whose branch can be executed before
+// control arrives at site on a forward path (atoms tested only later are irrelevant to a guard).
+func CondAtomsReaching(fn *ssa.Function, site *ssa.BasicBlock) []ssa.Value {
+	var out []ssa.Value
+	seen := map[ssa.Value]bool{}
+	for _, b := range fn.Blocks {
+		if len(b.Instrs) == 0 {
+			continue
+		}
+		ifi, ok := b.Instrs[len(b.Instrs)-1].(*ssa.If)
+		if !ok {
+			continue
+		}
+		a, _ := normCond(ifi.Cond)
+		if seen[a] {
+			continue
+		}
+		if b == site || ForwardReach(b, nil, nil)[site] {
+			seen[a] = true
+			out = append(out, a)
+		}
+	}
+	return out
+}
+
+// IsFieldNamed reports whether v is a Field / FieldAddr (or a load of one) selecting a field with this name.
+func IsFieldNamed(v ssa.Value, name string) bool {
+	switch x := v.(type) {
+	case *ssa.Field:
+		if st, ok := x.X.Type().Underlying().(*types.Struct); ok {
+			return st.Field(x.Field).Name() == name
+		}
+	case *ssa.FieldAddr:
+		if pt, ok := x.X.Type().Underlying().(*types.Pointer); ok {
+			if st, ok := pt.Elem().Underlying().(*types.Struct); ok {
+				return st.Field(x.Field).Name() == name
+			}
+		}
+	case *ssa.UnOp:
+		if x.Op == token.MUL {
+			return IsFieldNamed(x.X, name)
+		}
+	}
+	return false
 }
